@@ -55,7 +55,7 @@ def main():
             only = args[1].split(",")
         args = args[2:]
     sys.argv[1:] = args
-    dirs = sys.argv[1:] or [os.path.join(VERIF, "selftest", "benign")]
+    dirs = [os.path.abspath(d) for d in sys.argv[1:]] or [os.path.join(VERIF, "selftest", "benign")]
     diffs = sorted(os.path.join(d, f) for d in dirs for f in os.listdir(d) if f.endswith(".diff"))
     if only:
         diffs = [d for d in diffs if any(os.path.basename(d).startswith(o) for o in only)]
